@@ -1556,6 +1556,23 @@ template <typename Key, typename Value, class INode>
   UNODB_DETAIL_ASSERT(is_node_min_size);
 
   if constexpr (std::is_same_v<INode, olc_inode_4<Key, Value>>) {
+    // The node is dissolved and its other child takes its place. If that child
+    // is an inode, leave_last_child prepends to its key prefix in place, so it
+    // has to be write-locked too, or a reader or writer positioned on it would
+    // go on with a prefix that no longer matches the depth it arrived at. Open
+    // its read critical section before any write guard is taken so that no
+    // thread waits while holding a lock.
+    const auto other_child{
+        inode.get_child(static_cast<std::uint8_t>(child_i == 0 ? 1 : 0))};
+    if (UNODB_DETAIL_UNLIKELY(!node_critical_section.check())) return {};
+    const auto other_child_is_inode = other_child.type() != node_type::LEAF;
+    optimistic_lock::read_critical_section other_child_critical_section{};
+    if (other_child_is_inode) {
+      other_child_critical_section = node_ptr_lock(other_child).try_read_lock();
+      if (UNODB_DETAIL_UNLIKELY(other_child_critical_section.must_restart()))
+        return {};  // LCOV_EXCL_LINE
+    }
+
     const optimistic_lock::write_guard parent_guard{
         std::move(parent_critical_section)};
     if (UNODB_DETAIL_UNLIKELY(parent_guard.must_restart())) return {};
@@ -1566,6 +1583,12 @@ template <typename Key, typename Value, class INode>
     optimistic_lock::write_guard child_guard{
         std::move(*child_critical_section)};
     if (UNODB_DETAIL_UNLIKELY(child_guard.must_restart())) return {};
+
+    std::optional<optimistic_lock::write_guard> other_child_guard;
+    if (other_child_is_inode) {
+      other_child_guard.emplace(std::move(other_child_critical_section));
+      if (UNODB_DETAIL_UNLIKELY(other_child_guard->must_restart())) return {};
+    }
 
     auto current_node{olc_art_policy<Key, Value>::make_db_inode_reclaimable_ptr(
         &inode, db_instance)};
